@@ -10,6 +10,8 @@ the library itself sees); `Generated.Pinned.*` is rendered by the same generator
 import GeckoModel.Generated.PacksIndex
 import GeckoModel.Generated.PinnedIndex
 
+import GeckoModel.Model.Coop
+import GeckoModel.Generated.Skeletons
 namespace GeckoModel.C18
 open GeckoModel GeckoModel.Generated
 
@@ -40,5 +42,19 @@ theorem layout_immutable : ∀ p ∈ Pinned.allModules, ∃ c ∈ Packs.allModul
 example : Packs.allModules.length ≥ 164 ∧ (Packs.allModules.map (·.items.length)).sum ≥ 20000 := by decide +kernel
 def badExample : Item := ⟨"x", "x", 1023, .word, 2, none, 0, [], false, none, none⟩
 example : ¬ badExample.WF := by decide
+
+/-! ### where the tables are turned into objects: the blocking client's session glue -/
+
+/-- **every connection of the blocking client gets declaration objects of its own** (over the regenerated skeleton of
+`GeckoSpa._on_config_received`): on every path that ends normally the pack, the config and the log declaration classes are each
+INSTANTIATED (once each, in this order, over this connection's structure) before the full block is requested - none is looked up in
+something that outlives the connection (rounds 14 and 15: declaration objects kept per process read another connection's block) -/
+theorem blocking_declarations_are_made_for_each_connection :
+    Coop.everyNormalEndDid (fun a => a.kind == .call && a.name == "GeckoPack") Skeletons.sk_spa__GeckoSpa__on_config_received = true ∧
+    Coop.everyNormalEndDid (fun a => a.kind == .call && a.name == "GeckoConfigStruct") Skeletons.sk_spa__GeckoSpa__on_config_received = true ∧
+    Coop.everyNormalEndDid (fun a => a.kind == .call && a.name == "GeckoLogStruct") Skeletons.sk_spa__GeckoSpa__on_config_received = true ∧
+    Coop.everyNormalEndDid (fun a => a.kind == .call && a.name == "self.struct.retry_request") Skeletons.sk_spa__GeckoSpa__on_config_received = true ∧
+    ((Coop.actions .call Skeletons.sk_spa__GeckoSpa__on_config_received).filter fun n => n == "GeckoPack" || n == "GeckoConfigStruct" || n == "GeckoLogStruct") =
+      ["GeckoPack", "GeckoConfigStruct", "GeckoLogStruct"] := by decide +kernel
 
 end GeckoModel.C18
